@@ -71,10 +71,16 @@ def do_run(ids, all_checks, tier):
         d = os.path.join(SEEDED, sid)
         meta = json.load(open(os.path.join(d, "meta.json")))
         prop = meta["property"]
+        if meta.get("obsolete"):
+            print("%s target=%s OBSOLETE (skipped): edited lines removed by a later fix: commit" % (sid, prop))
+            continue
         tmp = tempfile.mkdtemp(prefix="xfab_seed_")
         try:
             dst = clone(tmp)
-            subprocess.check_call(["git", "-C", dst, "apply", os.path.join(d, "patch.diff")])
+            ap = subprocess.run(["git", "-C", dst, "apply", os.path.join(d, "patch.diff")], capture_output=True, text=True)
+            if ap.returncode:
+                print("%s target=%s PATCH DOES NOT APPLY to the current /repo HEAD: %s" % (sid, prop, ap.stderr.strip()[:200]))
+                continue
             props = allprops if all_checks else [prop]
             caught = []
             t0 = time.time()
